@@ -824,8 +824,14 @@ fn evaluate(script: &Script, run: &Run, out: &mut RunOut) {
     // connections and reading the shutdown command: a request can only be promised an answer if
     // all the blocking in the run plus its own handler fits the timeout (which worker a connection
     // lands on is not modelled, so the bound is over the whole run).
-    let total_blocking_ms: u64 = script.conns.iter().filter(|c| c.fault == ConnFault::BlockingHandler).map(|c| c.handler_ms).sum();
-    let blocking_fits = |own_ms: u64| ((total_blocking_ms + own_ms) * 1_000_000).saturating_add(SLACK_NS) < timeout_ns;
+    // (every request of an HTTP/2 burst runs the blocking handler once)
+    let total_blocking_ms: u64 = script
+        .conns
+        .iter()
+        .filter(|c| c.fault == ConnFault::BlockingHandler)
+        .map(|c| c.handler_ms.saturating_mul(if let ConnKind::H2 { streams } = c.kind { streams.clamp(1, 4) as u64 } else { 1 }))
+        .fold(0u64, |a, b| a.saturating_add(b));
+    let blocking_fits = |own_ms: u64| total_blocking_ms.saturating_add(own_ms).saturating_mul(1_000_000).saturating_add(SLACK_NS) < timeout_ns;
     // 2. drain: class-A requests get their answer
     let mut stalled_mid_request = false;
     for (ci, c) in run.conns.iter().enumerate() {
@@ -887,7 +893,7 @@ fn evaluate(script: &Script, run: &Run, out: &mut RunOut) {
         if k > 0 && !(queued || h2_read_before_call.get(k as usize).copied().unwrap_or(false)) {
             continue;
         }
-        if k > 0 && cs.fault == ConnFault::BlockingHandler && !blocking_fits(cs.handler_ms * n_req as u64) {
+        if k > 0 && cs.fault == ConnFault::BlockingHandler && !blocking_fits(0) {
             continue;
         }
         let id0 = req_id(ci, k);
